@@ -37,6 +37,10 @@ def main(ctx):
         if ctx.quick and ident[4] == 4 and ident[3] not in (0, 1):
             continue
         cases.append({"id": h(["firstloop", ident]), "fam": "first-statement-loop", "ident": list(ident), "src": src})
+    for li, (ident, src) in enumerate(progen.label_programs()):
+        if ctx.quick and li % 3 != ctx.seed % 3 and "+" not in ident[2].split(">")[0]:
+            continue
+        cases.append({"id": h(["labels", ident]), "fam": "labels", "ident": list(ident), "src": src})
     rng = random.Random(ctx.seed)
     hr = random.Random(ctx.seed * 31 + 7)
     for i in range(600 if ctx.quick else 12000):
